@@ -389,8 +389,8 @@ def gen_energy_spec(rng: random.Random, sigma=None, fmt=None, simple: bool = Fal
     column = "Potential" if "Potential" in legends else rng.choice(legends)
     n_hash = rng.choice([13, 13, 12, 0, 1, rng.randint(0, 13)])
     half_range = None
-    if sigma is None and rng.random() < 0.15:
-        half_range = rng.choice([120.0, 200.0, 240.0])
+    if sigma is None and rng.random() < 0.22:
+        half_range = rng.choice([120.0, 200.0, 240.0, 245.0])
     whole = sigma is None and rng.random() < 0.12
     return {"fmt": fmt or rng.choice(["xvg", "xvg", "csv"]), "legends": legends, "column": column, "n_hash": n_hash,
             "half_range": half_range, "whole_numbers": whole,
@@ -437,7 +437,7 @@ class PipelineCheck(Check):
 
     def budget(self, tier):
         if tier == "quick":
-            return {"runs": 128, "chunk": 1, "wall": 220, "run_timeout": 300, "min_wall": 45, "max_cells": 450}
+            return {"runs": 160, "chunk": 1, "wall": 220, "run_timeout": 300, "min_wall": 45, "max_cells": 450}
         return {"runs": 2400, "chunk": 2, "wall": 1750, "run_timeout": 900, "min_wall": 300, "max_cells": 1500}
 
     def preload(self):
@@ -453,6 +453,10 @@ class PipelineCheck(Check):
         n = spec["n_b"] * spec["n_o"] * spec["n_t"]
         T = rng.choice([200.0, 250.0, 273.0, 300.0, 300.0, 350.0, 400.0, round(rng.uniform(230, 400), 1)])
         es = gen_energy_spec(rng)
+        if es.get("half_range"):
+            # wide spreads are there to approach the documented 500 kJ/mol cap from below: pair them with low
+            # temperatures, where the exponents are largest
+            T = rng.choice([200.0, 200.0, 215.0, 230.0, 250.0, 273.0, 300.0])
         Dconst = 10 ** rng.uniform(-3, 3)
         # solver
         sel, which = rng.choice(SOLVER_TOP + SOLVER_TOP + SOLVER_OTHER)
